@@ -139,6 +139,19 @@ func runC17(cfg Config) {
 			total += z
 		}
 		blob := randBytes(rng, total)
+		repeated := false
+		if equal && nchunks > 1 && rng.Intn(2) == 0 {
+			// few distinct blocks repeated many times (runs of identical data): the same chunk ID occurs
+			// several times, also inside one worker batch
+			pool := make([][]byte, 1+rng.Intn(4))
+			for i := range pool {
+				pool[i] = randBytes(rng, 16)
+			}
+			for i := 0; i < nchunks; i++ {
+				copy(blob[i*16:], pool[rng.Intn(len(pool))])
+			}
+			repeated = true
+		}
 		cs := indexOf(blob, sizes)
 		setDigest("sha512")
 		workers := rng.Intn(8)
@@ -177,6 +190,11 @@ func runC17(cfg Config) {
 		flip(0, "flip-first")
 		flip(total-1, "flip-last")
 		flip(rng.Intn(total), "flip-random")
+		if repeated {
+			for q := 0; q < 6; q++ {
+				flip(rng.Intn(total), "flip-in-repeated")
+			}
+		}
 		// a byte in the first and the last chunk of some batch
 		if nchunks > 0 {
 			k := rng.Intn(nchunks)
